@@ -4,8 +4,8 @@ import (
 	"fmt"
 	"math/rand"
 	"os"
-	"strings"
 	"sort"
+	"strings"
 	"testing"
 	"testing/synctest"
 	"time"
